@@ -21,9 +21,9 @@ func checkC17(c *core.Ctx, r *core.Report) {
 		"(1) PAIR query lifecycle — in every function that calls query.StartQuery/StartQueryAsCoordinator, each return reachable from the success edge of the start is preceded on its path by DeleteQuery (called, deferred, or delegated to a goroutine that deletes its qid on every loop exit) for the same qid variable (phi web), so no entry stays in the running/waiting tables; " +
 		"(2) PAIR/LOCKORDER on the query-table locks (arqMapLock, waitingQueriesLock, RunningQueryState.rqsLock, …) in the query front-end packages; " +
 		"(3) no blocking channel send while the global running-queries lock may be held (a full StateChan would block every other query), except on a channel created in the same function; " +
-		"(4) ASSERT — in the PromQL front end every unchecked type assertion is dominated by a successful comma-ok/type-switch test of the same value to the same type or is trivially true; " +
+		"(4) ASSERT — in the PromQL front end and in the Elasticsearch query-DSL walker (pkg/es/query) every unchecked type assertion on an interface value is dominated by a successful comma-ok/type-switch test of the same value to the same type, is trivially true, or asserts a parameter that every static caller passes as a value of that static type or after its own successful type test; " +
 		"(5) TABLE — every QueryState constant sent on a state channel is a case of RunQueryForNewPipeline's state switch."
-	r.NotCovered = "parser termination and determinism, bounded answer time, goroutine leaks other than through the lifecycle pairing, admission-limit arithmetic, panics from other causes (index, nil); unchecked assertions in the ES query-DSL walkers are listed in DESIGN.md as not claimed"
+	r.NotCovered = "parser termination and determinism, bounded answer time, goroutine leaks other than through the lifecycle pairing, admission-limit arithmetic, panics from other causes (index, nil)"
 	a := lockAnalysis(c)
 
 	// ---------------------------------------------------------------- (1)
@@ -153,6 +153,36 @@ func checkC17(c *core.Ctx, r *core.Report) {
 		}
 	}
 	r.Floor("ASSERT", "unchecked-form assertions in the PromQL front end", nAssert, 3)
+
+	// (4b) the Elasticsearch query-DSL walker: values decoded from the request body
+	nEs := 0
+	esCount := map[string]int{}
+	for _, fn := range c.RepoFunctions() {
+		if core.FnPkgPath(fn) != core.ModPath+"/pkg/es/query" {
+			continue
+		}
+		for _, b := range fn.Blocks {
+			for _, in := range b.Instrs {
+				ta, ok := in.(*ssa.TypeAssert)
+				if !ok || ta.CommaOk {
+					continue
+				}
+				if _, isIface := ta.X.Type().Underlying().(*types.Interface); !isIface {
+					continue
+				}
+				nEs++
+				key := shortFn(fn) + ":" + types.TypeString(ta.AssertedType, func(p *types.Package) string { return p.Name() })
+				esCount[key]++
+				construct := fmt.Sprintf("%s#%d:checked-assertion", key, esCount[key])
+				if assertTrivial(ta) || assertGuarded(ta) || assertGuardedByTypeSwitchArm(ta) || assertArgAlwaysTyped(c, ta, 0) {
+					r.OK("ASSERT", construct, c.Pos(ta.Pos()), "dominated by a successful test of the same value, or trivially true")
+				} else {
+					r.Violation("ASSERT", construct, c.Pos(ta.Pos()), "unchecked type assertion on a value decoded from the request body: a query-DSL document with another JSON type at this place panics, and with no recover in the server the process exits")
+				}
+			}
+		}
+	}
+	r.Floor("ASSERT", "unchecked-form assertions in the Elasticsearch query-DSL walker", nEs, 10)
 
 	// ---------------------------------------------------------------- (5)
 	checkStateTable(c, r)
@@ -493,4 +523,55 @@ func firstStateNotReadyExit(c *core.Ctx, start *ssa.Call, ret *ssa.Return) bool 
 		return first
 	}
 	return false
+}
+
+// assertGuardedByTypeSwitchArm: `switch t := v.(type) { case T: ... v.(T) ...}` — the assertion of the same value
+// to T inside the arm whose comma-ok test of T succeeded (handled by assertGuarded), or the asserted value is the
+// result of a reflect/kind test; placeholder for idioms found while arming the rule.
+func assertGuardedByTypeSwitchArm(ta *ssa.TypeAssert) bool { return false }
+
+// assertArgAlwaysTyped: the asserted value is a parameter and every static caller passes a value that is
+// statically of the asserted type (a map key, a literal, a typed local converted to interface at the call).
+func assertArgAlwaysTyped(c *core.Ctx, ta *ssa.TypeAssert, depth int) bool {
+	p, ok := ta.X.(*ssa.Parameter)
+	if !ok {
+		return false
+	}
+	return paramAlwaysTyped(c, p, ta.AssertedType, depth)
+}
+
+func paramAlwaysTyped(c *core.Ctx, p *ssa.Parameter, t types.Type, depth int) bool {
+	if depth > 3 {
+		return false
+	}
+	fn := p.Parent()
+	idx := -1
+	for i, q := range fn.Params {
+		if q == p {
+			idx = i
+		}
+	}
+	sites := c.StaticCallers()[fn]
+	if idx < 0 || len(sites) == 0 {
+		return false
+	}
+	for _, ci := range sites {
+		a := ci.Common().Args[idx]
+		switch x := a.(type) {
+		case *ssa.MakeInterface:
+			if !types.Identical(x.X.Type(), t) {
+				return false
+			}
+		case *ssa.Parameter:
+			if !typeKnownAt(x, t, ci.Block()) && !paramAlwaysTyped(c, x, t, depth+1) {
+				return false
+			}
+		default:
+			// the caller tested the value's type (type-switch arm) before the call
+			if !typeKnownAt(a, t, ci.Block()) {
+				return false
+			}
+		}
+	}
+	return true
 }
